@@ -7,7 +7,7 @@
    NOT proved: that every reachable state of the store model passes the auditor (L2 links and L3 data-block layout are
    not in the Coq model of the store); that part rests on the audited real images (tie T2). *)
 Require Import List ZArith Lia Sorted. Import ListNotations.
-Require Import IW.KV.Keys IW.KV.Audit IW.KV.Audit_proofs IW.KV.Records IW.KV.AuditRecords_proofs IW.Gen.Facts.
+Require Import IW.KV.Keys IW.KV.Audit IW.KV.Audit_proofs IW.KV.Records IW.KV.AuditRecords_proofs IW.KV.Head IW.KV.Head_proofs IW.Gen.Facts.
 Local Open Scope Z_scope.
 
 (* the adjacent-overlap test on the ranges sorted by start is pairwise disjointness (blocks, and slots of a data block) *)
@@ -65,3 +65,29 @@ Theorem C06_audited_node_is_readable :
                  length recs = Z.to_nat (s_pnum s) /\ 1 <= s_pnum s <= KVBLK_IDXNUM.
 Proof. exact audited_node_is_readable. Qed.
 Print Assumptions C06_audited_node_is_readable.
+
+(* The level links of the database head.  A search context or cursor reads them up to the first zero into a recycled node
+   copy and the whole array of SLEVELS links is written back when the head changes.  For the reader of the current tree
+   (the variant is the measured fact KV_HEAD_READ_ZEROES_REST): whatever the recycled copy held before, what is read has no
+   link behind the first zero, and a head that is clean on disk is read as exactly what is stored - so writing it back keeps
+   the levels above the current top empty.  The reader before the repair 7cc8b6d handed back the slot's old links. *)
+Theorem C06_head_read_clean : forall disk slot, length slot = length disk -> clean (read_head disk slot) = true.
+Proof. exact head_read_clean. Qed.
+Print Assumptions C06_head_read_clean.
+
+Theorem C06_head_read_identity : forall disk slot, clean disk = true -> length slot = length disk -> read_head disk slot = disk.
+Proof. exact head_read_identity. Qed.
+Print Assumptions C06_head_read_identity.
+
+Theorem C06_head_read_stale_refuted :
+  exists disk slot, clean disk = true /\ length slot = length disk /\
+    clean (read_levels false disk slot) = false /\ read_levels false disk slot <> disk.
+Proof. exact head_read_stale_refuted. Qed.
+Print Assumptions C06_head_read_stale_refuted.
+
+(* Correspondence, evaluated here on every run: the five reads tools/probes/probe_kvhead.c made with the current tree
+   (first zero at level 1, 2, 5, 23 and none; slot full of another node's links) are what the model's reader returns. *)
+Example C06_head_probe_agrees :
+  forallb (fun t => match t with (disk, slot, res) =>
+                      if list_eq_dec Z.eq_dec (read_head disk slot) res then true else false end) KV_HEAD_PROBE = true.
+Proof. vm_compute. reflexivity. Qed.
